@@ -479,3 +479,21 @@ def tree_size(graph, root, cap=10 ** 7):
                 memo[m] = min(cap, 1 + sum(memo.get(k, 1) for k in kids))
         return memo[n]
     return size(root)
+
+
+def max_depth(graph, root, cap=10 ** 6):
+    """longest directory chain below root (None if cyclic)"""
+    if has_cycle(graph, root):
+        return None
+    memo = {}
+    stack = [(root, 0)]
+    while stack:
+        m, i = stack.pop()
+        kids = [k for k in graph.get(m, []) if k in graph]
+        if i < len(kids):
+            stack.append((m, i + 1))
+            if kids[i] not in memo:
+                stack.append((kids[i], 0))
+        else:
+            memo[m] = min(cap, 1 + max([memo.get(k, 0) for k in kids] or [0]))
+    return memo.get(root, 0)
